@@ -60,6 +60,9 @@ def scenarios(tier, seed):
     return out
 
 
+CONTAINER_FRAME = re.compile(r'^(XalanVector|XalanDeque|XalanList|XalanMap|XalanSet|XalanArrayAllocator|ArenaAllocator|ReusableArenaAllocator|ArenaBlock|ReusableArenaBlock|XalanAllocator|XalanMemMgrAutoPtr|XalanMemMgrs|operator new)\b|XalanConstruct|XalanAllocationGuard')
+
+
 def case(ctx, idx, res):
     sc = scenarios(ctx.tier, ctx.seed)[idx]
     steps, xsl, xml, exc, flavour = sc
@@ -87,12 +90,17 @@ def case(ctx, idx, res):
     if foreign or dbl:
         res.viol('balance|badfree|%s' % steps, 'foreign=%d double=%d frees without injected failure in %s' % (foreign, dbl, name), payload)
     # ---- containment for every k
-    for d in re.finditer(r'DEATH k=(\d+) kind=(\S+) site=(\S*)', out):
+    for d in re.finditer(r'DEATH k=(\d+) kind=(\S+) site=(.*)', out):
         k, kind, site = d.groups()
         if site.startswith('list-head:'):
             key = 'death|%s|list-head' % kind
         else:
-            key = 'death|%s|%s' % (kind, ';'.join(site.split(';')[:2]))
+            # the call site is the first frame that is not the inside of a container or an allocator (how many of those frames there are
+            # depends on inlining, i.e. on the build flavour), followed by its caller
+            frames = [f.strip() for f in site.split(';') if f.strip()]
+            while len(frames) > 1 and CONTAINER_FRAME.search(frames[0]):
+                frames.pop(0)
+            key = 'death|%s|%s' % (kind, ';'.join(frames[:2]))
         res.viol(key, 'refusing allocation %s of %s ends the process (%s); refused allocation at %s' % (k, name, kind, site), dict(payload, k=int(k), replay_cmd=' '.join(cmd + [k, k])))
     for d in re.finditer(r'BADFREE kind=(\S+) at=(\S*)', out):
         res.viol('badfree|%s|%s' % (d.group(1), ';'.join(d.group(2).split(';')[:2])), '%s free after an injected failure in %s at %s' % (d.group(1), name, d.group(2)), payload)
